@@ -27,10 +27,16 @@ func symZobrist() *ZobristTable {
 }
 
 func harnessHashStep(turn Color, mtype MoveType) {
+	from := verifSplit(uint64(nondetU8("from")), 0, 63)
+	verifAssume(tierSquare(from))
 	zt := symZobrist()
 	r := symRefPos()
 	m := symMove()
 	m.Type = mtype
+	m.From = Square(from)
+	m.To = Square(verifSplit(uint64(m.To), 0, 63))
+	// cheap geometric pre-filter on the two constants (implied by GENFORM; prunes tasks early)
+	verifAssume(refGeomPossible(turn, mtype, int(m.From), int(m.To)))
 	verifAssume(refLegalPos(r, turn))
 	verifAssume(refGenForm(r, turn, m))
 	p := toPosition(r)
@@ -99,4 +105,40 @@ func Harness_C07_Sensitivity() {
 		q3.xor(sq, c, k)
 		verifAssert(h^zt.Hash(&q3, turn) == zt.pieces[c][k][sq], "removing a piece changes the hash by exactly its table word")
 	}
+}
+
+// refGeomPossible: necessary condition on (from, to) for a move of the given kind by any piece.
+func refGeomPossible(turn Color, t MoveType, from, to int) bool {
+	if from == to {
+		return false
+	}
+	df, dr := (to&7)-(from&7), (to>>3)-(from>>3)
+	adf, adr := df, dr
+	if adf < 0 {
+		adf = -adf
+	}
+	if adr < 0 {
+		adr = -adr
+	}
+	fwd := 1
+	if turn == Black {
+		fwd = -1
+	}
+	switch t {
+	case Normal:
+		return df == 0 || dr == 0 || adf == adr || (adf == 1 && adr == 2) || (adf == 2 && adr == 1)
+	case Capture:
+		return df == 0 || dr == 0 || adf == adr || (adf == 1 && adr == 2) || (adf == 2 && adr == 1)
+	case Push, Promotion:
+		return df == 0 && dr == fwd
+	case Jump:
+		return df == 0 && dr == 2*fwd
+	case EnPassant, CapturePromotion:
+		return adf == 1 && dr == fwd
+	case KingSideCastle:
+		return dr == 0 && df == -2
+	case QueenSideCastle:
+		return dr == 0 && df == 2
+	}
+	return false
 }
